@@ -55,6 +55,7 @@ type Exec struct {
 	errs      []string
 	paramObs  []Observable
 	topFrame  *Frame
+	cellPtr   map[string]Val // local cells holding interior pointers
 	names     map[string]int
 	countCache map[string]string
 	kinds     map[string]string // heap key -> leaf kind
